@@ -764,6 +764,22 @@ fn fam_prover(tag: &str, out: &mut Vec<Case>) {
                 let mut r = base_r.clone(); r[j][d - 1] += Scalar::ONE; if run(&base_v, &base_v, &r, vec![None; m], None)? { return Err(format!("wrong blinding accepted at position {}", j)); }
             }
             if d < 6 && run(&base_v, &base_v, &base_r, vec![None; m], Some(d + 1))? { return Err("witness of a different extension degree accepted".into()); }
+            // valid openings with special blinding factors (all zero; one zero component; reversed order when d > 1): the commitment is computed here from the public
+            // generators (v*H + sum r_k*G_k), not with the crate's `commit`, and the prover must accept the witness
+            for kind in 0..3usize {
+                let rs: Vec<Vec<Scalar>> = (0..m).map(|j| (0..d).map(|k| match kind { 0 => Scalar::ZERO, 1 => if k == (j % d) { Scalar::ZERO } else { base_r[j][k] }, _ => base_r[j][d - 1 - k] + Scalar::from(k as u64) }).collect()).collect();
+                let pcg = params.pc_gens();
+                let cs: Vec<P> = (0..m).map(|j| { let mut c = Scalar::from(base_v[j]) * pcg.h_base; for k in 0..d { c += rs[j][k] * pcg.g_base_vec[k]; } c }).collect();
+                let st = RangeStatement::init(params.clone(), cs, vec![None; m], None).map_err(|e| format!("{:?}", e))?;
+                let ops: Vec<_> = (0..m).map(|j| CommitmentOpening::new(base_v[j], rs[j].clone())).collect();
+                let w = RangeWitness::init(ops).map_err(|e| format!("{:?}", e))?;
+                let mut r2 = ChaCha12Rng::seed_from_u64(4);
+                let what = ["all blinding factors zero", "one blinding component zero", "distinct blinding components"][kind];
+                let p = catch_unwind(AssertUnwindSafe(|| o_prove(&mut Transcript::new(b"ctx"), &st, &w, &mut r2))).map_err(|_| format!("prove_with_rng panicked on a valid witness ({})", what))?
+                    .map_err(|e| format!("valid witness refused ({}; commitments computed as v*H + sum r_k*G_k): {:?}", what, e))?;
+                let mut t = [Transcript::new(b"ctx")];
+                o_verify_batch(&mut t, &[st.clone()], &[p], VerifyAction::VerifyOnly).map_err(|e| format!("the prover returned a proof that does not verify ({}): {:?}", what, e))?;
+            }
             // a value of 2^bits or more stays invalid when a promise brings value - promise below 2^bits
             if bits < 32 {
                 for j in 0..m {
